@@ -158,6 +158,36 @@ fn chan_op(st: &mut Option<ChanSt>, op: &[String], lines: &mut Vec<String>) {
             }
             _ => panic!("next needs the UnboundedRx"),
         },
+        "nextwait" => {
+            // `Iterator::next` on an empty channel with a live transmitter: it must not return before somebody
+            // sends. Another thread sends after a delay; the call is timed.
+            let v = num(2);
+            let RxKind::Rx(rx) = &mut s.rx else { panic!("nextwait needs the UnboundedRx") };
+            if rx.rx.is_empty() {
+                let tx = s.txs.get(&(num(1) as usize)).expect("live handle").clone();
+                let delay = std::time::Duration::from_millis(3);
+                let t0 = std::time::Instant::now();
+                let sender = std::thread::spawn(move || {
+                    std::thread::sleep(delay);
+                    tx.send(v).unwrap();
+                });
+                let got = rx.next();
+                let waited = t0.elapsed() >= delay;
+                sender.join().unwrap();
+                lines.push(format!("waited {}", if waited { 1 } else { 0 }));
+                match got {
+                    Some(x) => lines.push(format!("next some {x}")),
+                    None => lines.push("next none".into()),
+                }
+            } else {
+                lines.push("waited 0".into());
+                match rx.next() {
+                    Some(x) => lines.push(format!("next some {x}")),
+                    None => lines.push("next none".into()),
+                }
+                s.txs.get(&(num(1) as usize)).expect("live handle").send(v).unwrap();
+            }
+        }
         "poll" => {
             let r = match &mut s.rx {
                 RxKind::Rx(rx) => poll_once(rx),
@@ -367,7 +397,7 @@ fn merge_run(op: &[String], lines: &mut Vec<String>) {
             }
             drop(rtx);
         });
-        let out = tokio::time::timeout(std::time::Duration::from_secs(20), consumer)
+        let out = tokio::time::timeout(std::time::Duration::from_secs(2), consumer)
             .await
             .expect("merged stream did not end")
             .unwrap();
@@ -727,7 +757,7 @@ fn run() {
         for op in case.ops.iter() {
             lines.push("@".into());
             match op[0].as_str() {
-                "chan" | "send" | "sink" | "clone" | "droptx" | "tostream" | "next" | "poll" | "droprx" | "wrap"
+                "chan" | "send" | "sink" | "clone" | "droptx" | "tostream" | "next" | "nextwait" | "poll" | "droprx" | "wrap"
                 | "wrapoff" | "dsend" | "disable" => chan_op(&mut ch, op, lines),
                 "flaky" | "flakyoff" | "fsend" | "fdisable" => flaky_op(&mut fl, op, lines),
                 "merge" | "ml" | "mr" | "mcl" | "mcr" | "mpoll" | "mrun" => merge_op(&mut mg, op, lines),
@@ -781,7 +811,11 @@ fn gen_channel(rng: &mut Rng, out: &mut Out, len: i64) {
                 out.line(format!("droptx {h}"));
             }
             63..=80 if rx_alive => out.line("poll"),
-            81..=88 if rx_alive && !stream => out.line("next"),
+            81..=86 if rx_alive && !stream => out.line("next"),
+            87..=88 if rx_alive && !stream && !handles.is_empty() => {
+                let h = *rng.pick(&handles);
+                out.line(format!("nextwait {h} {v}"));
+            }
             89..=91 if rx_alive && !stream => {
                 stream = true;
                 out.line("tostream");
@@ -1078,8 +1112,8 @@ fn generate(seed: u64, n_cases: usize, tier: &str) {
     let mut rng = Rng::new(seed);
     let mut id = 0usize;
     if tier == "thorough" {
-        exhaustive_merge(&mut out, &mut id, 6);
-        exhaustive_droppable(&mut out, &mut id, 6);
+        exhaustive_merge(&mut out, &mut id, 7);
+        exhaustive_droppable(&mut out, &mut id, 7);
     }
     for k in 0..n_cases {
         out.case(format!("r{k}"));
